@@ -13,7 +13,6 @@ from .. import cmpeval, hirq, mirg, rules
 from ..rules import norm, ncallee
 
 META = {
-    "pending": "C08.no-patch-dropped reports two sites on the unchanged tree; awaiting a concrete reproduction before listing as known finding or repairing",
     "level": "other",
     "technique": "comparator truth tables over the 3 orderings (typed HIR) + must-pass-through on MIR + sibling key-function comparison",
     "claim": "Decides the ordering invariant and its use for every mutator and every path: insertion predicates are strict, sorts stable+descending, no reordering Vec op, map rebuilt first-wins after every mutation, one key function, verify_base/verify_patched dominate apply_patch's success and compare against the right digests, no patch dropped on error. Does not replay histories.",
